@@ -70,7 +70,7 @@ prop("C02", NEC + "Clauses: token-range to text-range conversions unwrap first()
      "ranges handed to String::replace_range are computed against the very text they are applied to (TEXT-SYNC batch clauses: a stale "
      "range is out of bounds or off a character boundary, and replace_range panics).",
      [{"rule": "EMPTY-RANGE-GUARD", "floor": 2}, {"rule": "LOOKUP-NOPANIC", "floor": 14},
-      {"rule": "ENTRY-GUARD", "floor": 6}, {"rule": "WHO-MAY", "filter": tag("exit"), "floor": 5},
+      {"rule": "ENTRY-GUARD", "floor": 6}, {"rule": "WHO-MAY", "filter": tag("exit"), "floor": 1},
       {"rule": "TOKEN-RANGE-SOURCE", "floor": 11}, {"rule": "INDEX-ELEM", "floor": 30},
       {"rule": "BUILTIN-SET", "floor": 3}, {"rule": "TEXT-SYNC", "filter": tag("batch", "clamp"), "floor": 6}])
 
@@ -221,7 +221,7 @@ prop("C18", NEC + "Clauses: every path through every Request arm of the three ph
      "turns the PreparedResponse into exactly one Response and sends it; phase x situation -> error code table; "
      "exit handling per phase; senders released before the tasks are joined; end of input falls through to Ok(()); "
      "responses can only be built from the request's PreparedResponse; JSON-RPC error code numbers.",
-     [{"rule": "LIFECYCLE", "floor": 61}, {"rule": "WHO-MAY", "floor": 14}, {"rule": "TABLES-ERRCODE", "floor": 3},
+     [{"rule": "LIFECYCLE", "floor": 97}, {"rule": "WHO-MAY", "floor": 11}, {"rule": "TABLES-ERRCODE", "floor": 4},
       {"rule": "SEND-AWAIT", "floor": 11}])
 
 prop("C19", NEC + "Clauses: decode consumes nothing before its last `Ok(None)`, slices the body only behind the "
@@ -230,7 +230,7 @@ prop("C19", NEC + "Clauses: decode consumes nothing before its last `Ok(None)`, 
      "queued behind it (BROKER diag: publishing is guarded by the capability flag alone); the process is not terminated by process::exit "
      "on the graceful path, where responses may still be queued for the writer task (WHO-MAY exit).",
      [{"rule": "CODEC", "floor": 7}, {"rule": "WHO-MAY", "filter": tag("framed"), "floor": 1},
-      {"rule": "BROKER", "filter": tag("diag"), "floor": 8}, {"rule": "WHO-MAY", "filter": tag("exit"), "floor": 5}])
+      {"rule": "BROKER", "filter": tag("diag"), "floor": 8}, {"rule": "WHO-MAY", "filter": tag("exit"), "floor": 1}])
 
 prop("C20", NEC + "Clauses: diagnostics only under `if send_diagnostics`, once per Open/Change; Close removes; "
      "document map keyed by an injective function of the URI; no task spawned per request; every channel send is "
